@@ -19,3 +19,9 @@ package stringx
 //@   property C19
 //@   ensures fresh(result)
 //@   allocates
+// the shared source is seeded from the clock at nanosecond granularity (processes started within the same second must not draw
+// the same id sequence): the seed handed to newLockedSource is the UnixNano reading itself
+//@ func src
+//@   property C19
+//@   ghost at after UnixNano#0: ns = ret
+//@   call newLockedSource#0: assert arg_seed == ns
